@@ -13,6 +13,7 @@ import mirq
 from mirq import show, access_path, AnchorMissing, const_of, walk
 from rulekit import Table
 from rules import common as C
+from rules import vocab as V
 
 TABLE = Table('C05')
 NOT_DECIDED = ('equality of the returned bytes with the exact span for all documents (value-level).')
@@ -50,14 +51,14 @@ def r1(cx, rec):
             # callers: the same expression is passed to the decoder and to the parser
             for g, gb in C.callers(F, f.path):
                 a = access_path(g.expr_call(gb)[2][params.index(buf)])
-                dec = [b2 for b2 in mirq.real_calls(g) if (g.blocks[b2]['t'].get('callee') or '').endswith('BDecoder::from_array')]
+                dec = [b2 for b2 in mirq.real_calls(g) if (g.blocks[b2]['t'].get('callee') or '') == V.codec_fn(F, 'from_array').path]
                 da = [access_path(g.expr_call(b2)[2][0]) for b2 in dec]
                 rec.site(g, gb, 'decoder input %s, hashed buffer %s' % (da, a))
                 rec.need(da == [a], 'parsed-and-hashed-buffers-differ', g, gb, 'the buffer that is decoded (%s) is not the buffer that is hashed (%s)' % (da, a))
                 # and the dictionary given to the parser comes from that decode
                 d = show(g.expr_call(gb)[2][1 - params.index(buf)]) if len(params) == 2 else ''
                 srcit = mirq.deps(g, g.expr_call(gb)[2][1 - params.index(buf)]) if len(params) == 2 else set()
-                rec.need(any('from_array' in show(mirq.init_of(y)) for y in walk(g.expr_call(gb)[2][1 - params.index(buf)])) or 'iter' in srcit, 'dict-source', g, gb, 'parsed dictionary does not come from the decoder')
+                rec.need(any(V.codec_fn(F, 'from_array').path in show(mirq.init_of(y)) for y in walk(g.expr_call(gb)[2][1 - params.index(buf)])) or 'iter' in srcit, 'dict-source', g, gb, 'parsed dictionary does not come from the decoder')
 
 
 @TABLE.rule('2', 'K5b', 'hash function: SHA-1 updated exactly once with find_first("4:info", data); returns digest bytes', floor=2)
